@@ -43,45 +43,58 @@ Section Edit.
               | None => None
               end.
 
-  (** set_radius: only the radius changes and it reads back; a flat surface becomes a StandardGeometry that
-      keeps the conic constant it read before *)
+  (** set_radius touches surface k only, through [set_radius_fun] (Model/M_C01.v): a flat surface given a
+      finite radius becomes a StandardGeometry keeping the conic it read; a StandardGeometry given an
+      infinite radius goes back to a Plane keeping a non-zero conic; every other case stores the radius *)
   Theorem set_radius_exact (l : lens) v k l' :
     set_radius l v k = Some l' ->
-    edits_only l l' k (fun s => match s_kind s with
-                                | GPlane => with_geom s GStd v (Some (conic_read s)) (s_c s)
-                                | g => with_geom s g v (s_k s) (s_c s)
-                                end) /\
-    (forall s, nth_error (surfs l) (Z.to_nat k) = Some s -> s_kind s <> GPlane ->
-       nth_error (surfs l') (Z.to_nat k) = Some (with_geom s (s_kind s) v (s_k s) (s_c s))).
+    edits_only l l' k (set_radius_fun v) /\
+    (forall s, nth_error (surfs l) (Z.to_nat k) = Some s -> isinf_ v = false ->
+       exists s', nth_error (surfs l') (Z.to_nat k) = Some s' /\ s_R s' = v /\ s_c s' = s_c s /\
+                  conic_read s' = conic_read s).
   Proof.
     unfold set_radius. destruct (nthS l k) as [s0|] eqn:E; [|discriminate].
     destruct (nthS_some _ _ _ E) as (Hk & Hs0). intros H; injection H as <-. split.
     - split; [apply upd_surf_rest|]. intros j. apply upd_surf_nth.
-    - intros s Hs Hp. rewrite upd_surf_nth, Hs. rewrite Z2Nat.id by exact Hk. rewrite Z.eqb_refl.
-      destruct (s_kind s); try reflexivity. contradiction.
+    - intros s Hs Hv. rewrite upd_surf_nth, Hs. rewrite Z2Nat.id by exact Hk. rewrite Z.eqb_refl.
+      eexists. split; [reflexivity|]. unfold set_radius_fun. rewrite Hv.
+      destruct (s_kind s); cbn; repeat split; reflexivity.
   Qed.
 
-  (** the edit function of set_radius leaves every other read-out of the surface alone *)
+  (** for a finite radius value the edit leaves every other read-out of the surface alone *)
   Lemma set_radius_fun_frame (v : T) (s : surf) :
-    let s' := match s_kind s with
-              | GPlane => with_geom s GStd v (Some (conic_read s)) (s_c s)
-              | g => with_geom s g v (s_k s) (s_c s)
-              end in
+    isinf_ v = false ->
+    let s' := set_radius_fun v s in
     s_R s' = v /\ conic_read s' = conic_read s /\ s_c s' = s_c s /\
     s_x s' = s_x s /\ s_y s' = s_y s /\ s_z s' = s_z s /\ s_rx s' = s_rx s /\ s_ry s' = s_ry s /\
     s_mpre s' = s_mpre s /\ s_mpost s' = s_mpost s /\ s_stop s' = s_stop s /\ s_refl s' = s_refl s /\
     s_obj s' = s_obj s.
-  Proof. cbv zeta. destruct (s_kind s); cbn; repeat split; reflexivity. Qed.
+  Proof. intros Hv. cbv zeta. unfold set_radius_fun. rewrite Hv. destruct (s_kind s); cbn; repeat split; reflexivity. Qed.
 
-  Theorem set_radius_keeps_conic (l : lens) v k l' :
+  (** whatever the value (infinite included): positions, media, flags and decentres are untouched *)
+  Theorem set_radius_frame (l : lens) v k l' :
     set_radius l v k = Some l' ->
-    map conic_read (surfs l') = map conic_read (surfs l) /\ map s_c (surfs l') = map s_c (surfs l) /\
-    positions l' = positions l /\ n_post l' = n_post l.
+    positions l' = positions l /\ n_post l' = n_post l /\ n_pre l' = n_pre l /\
+    map s_stop (surfs l') = map s_stop (surfs l) /\ map s_x (surfs l') = map s_x (surfs l) /\
+    map s_y (surfs l') = map s_y (surfs l) /\ map s_rx (surfs l') = map s_rx (surfs l) /\
+    map s_ry (surfs l') = map s_ry (surfs l).
   Proof.
     unfold set_radius. destruct (nthS l k) as [s0|]; [|discriminate]. intros H; injection H as <-.
-    unfold positions, n_post, index_of, upd_surf, with_surfs. cbn [surfs mats].
+    unfold positions, n_post, n_pre, index_of, upd_surf, with_surfs. cbn [surfs mats].
     repeat split; apply map_enumZ_preserve; intros j x; destruct (j =? k)%Z; try reflexivity;
-      destruct (s_kind x); reflexivity.
+      unfold set_radius_fun; destruct (s_kind x); destruct (isinf_ v); reflexivity.
+  Qed.
+
+  (** a finite radius value keeps every conic read-out and every coefficient list *)
+  Theorem set_radius_keeps_conic (l : lens) v k l' :
+    isinf_ v = false ->
+    set_radius l v k = Some l' ->
+    map conic_read (surfs l') = map conic_read (surfs l) /\ map s_c (surfs l') = map s_c (surfs l).
+  Proof.
+    intros Hv. unfold set_radius. destruct (nthS l k) as [s0|]; [|discriminate]. intros H; injection H as <-.
+    unfold upd_surf, with_surfs. cbn [surfs].
+    split; apply map_enumZ_preserve; intros j x; destruct (j =? k)%Z; try reflexivity;
+      unfold set_radius_fun; rewrite Hv; destruct (s_kind x); reflexivity.
   Qed.
 
   Theorem set_conic_exact (l : lens) v k l' :
